@@ -140,3 +140,70 @@ pub fn exact(c: &LruCache<u8, SV, BH>) {
         p = e.prev;
     }
 }
+
+/// quick state: 3 entries in a 4-slot table, promotion history so that bucket order != recency order
+pub fn state_q3() -> LruCache<u8, SV, BH> {
+    let mut c = prebuilt(3, 4);
+    c.touch(&0);                 // order is now 1, 2, 0
+    c
+}
+/// thorough state: n <= max_n entries (symbolic), optional promotion, placement/tombstones non-deterministic
+pub fn state_t(max_n: u8) -> LruCache<u8, SV, BH> {
+    nondet(true, true);
+    let n: u8 = kani::any();
+    kani::assume(n <= max_n);
+    let mut c = prebuilt(n, 4);
+    if n >= 2 && kani::any() {
+        let k: u8 = kani::any();
+        kani::assume(k < n);
+        c.touch(&k);
+    }
+    c
+}
+
+
+// ---- bitwise fingerprint of everything reachable from a cache (C19, C14) ---------------------------------
+#[derive(Clone, Copy)]
+pub struct SlotFp { full: bool, hash: u64, addr: *const Entry<u8, SV>, size: usize, prev: EntryPtr<u8, SV>, next: EntryPtr<u8, SV>, key: u8, val: usize }
+pub struct Fp {
+    seal: EntryPtr<u8, SV>, seal_prev: EntryPtr<u8, SV>, seal_next: EntryPtr<u8, SV>, seal_size: usize,
+    cur: usize, max: usize, cap: usize, len: usize, nslots: usize, growth_left: usize,
+    slots: [SlotFp; table::MAXCAP],
+}
+impl PartialEq for Fp {
+    fn eq(&self, o: &Fp) -> bool {
+        let mut same = self.seal == o.seal && self.seal_prev == o.seal_prev && self.seal_next == o.seal_next
+            && self.seal_size == o.seal_size
+            && self.cur == o.cur && self.max == o.max && self.cap == o.cap && self.len == o.len
+            && self.nslots == o.nslots && self.growth_left == o.growth_left;
+        let mut i = 0;
+        while i < table::MAXCAP {
+            let (a, b) = (&self.slots[i], &o.slots[i]);
+            same = same && a.full == b.full && a.addr == b.addr;
+            if a.full && b.full {
+                same = same && a.hash == b.hash && a.size == b.size && a.prev == b.prev && a.next == b.next && a.key == b.key && a.val == b.val;
+            }
+            i += 1;
+        }
+        same
+    }
+}
+pub fn fingerprint<S>(c: &LruCache<u8, SV, S>) -> Fp {
+    let blank = SlotFp { full: false, hash: 0, addr: std::ptr::null(), size: 0, prev: c.seal, next: c.seal, key: 0, val: 0 };
+    let mut slots = [blank; table::MAXCAP];
+    let mut i = 0;
+    while i < table::MAXCAP {
+        let (full, hash, addr) = c.table.slot(i);
+        slots[i].full = full; slots[i].hash = hash; slots[i].addr = addr;
+        if full {
+            let e = unsafe { &*addr };
+            slots[i].size = e.size; slots[i].prev = e.prev; slots[i].next = e.next;
+            slots[i].key = unsafe { *e.key() }; slots[i].val = unsafe { e.value() }.0;
+        }
+        i += 1;
+    }
+    Fp { seal: c.seal, seal_prev: c.seal.get().prev, seal_next: c.seal.get().next, seal_size: c.seal.get().size,
+         cur: c.current_size, max: c.max_size, cap: c.table.capacity(), len: c.table.len(),
+         nslots: c.table.nslots(), growth_left: c.table.growth_left(), slots }
+}
+
